@@ -349,12 +349,29 @@ fn prop_rt_inner(bytes: &[u8], explain: bool) -> String {
             {
                 // F22: control points stored at distinct times (distinct under total_cmp) that are closer than the decoder's
                 // grouping epsilon: the collections keep them apart, the decoder groups their lines when they are adjacent
-                let cp = &m1.control_points;
+                let cp = m1.control_points.clone();
                 let mut ts: Vec<f64> = cp.timing_points.iter().map(|p| p.time)
                     .chain(cp.difficulty_points.iter().map(|p| p.time))
                     .chain(cp.effect_points.iter().map(|p| p.time))
                     .chain(cp.sample_points.iter().map(|p| p.time))
                     .collect();
+                // … and the times at which the encoder adds sample points of its own: object starts, ends and slider nodes
+                for h in m1.hit_objects.iter_mut() {
+                    ts.push(h.start_time);
+                    match &mut h.kind {
+                        HitObjectKind::Slider(sl) => {
+                            let spans = sl.span_count();
+                            let dur = sl.duration();
+                            for k in 1..=spans.clamp(0, 64) {
+                                ts.push(h.start_time + dur * f64::from(k) / f64::from(spans.max(1)));
+                            }
+                        }
+                        HitObjectKind::Spinner(sp) => ts.push(h.start_time + sp.duration),
+                        HitObjectKind::Hold(ho) => ts.push(h.start_time + ho.duration),
+                        HitObjectKind::Circle(_) => {}
+                    }
+                }
+                ts.retain(|t| !t.is_nan());
                 ts.sort_by(|a, b| a.total_cmp(b));
                 ts.dedup_by(|a, b| a.to_bits() == b.to_bits());
                 if ts.windows(2).any(|w| (w[1] - w[0]).abs() < f64::EPSILON) {
